@@ -15,7 +15,12 @@ pub const ALL_FW: [FloatWidth; 2] = [FloatWidth::Width32, FloatWidth::Width64];
 
 pub fn gen_text(rng: &mut Rng, max: usize) -> String {
     // no NUL, valid UTF-8: empty / ASCII / multi-byte mixes
-    let pieces = ["a", "Z", " ", "~", "\u{7f}", "\u{1}", "é", "ß", "€", "\u{800}", "\u{ffff}", "𝄞", "\u{10ffff}", "0", "_"];
+    let pieces = [
+        "a", "Z", " ", "~", "\u{7f}", "\u{1}", "é", "ß", "€", "\u{800}", "\u{ffff}", "𝄞", "\u{10ffff}", "0", "_",
+        // characters that text-handling code likes to treat specially: BOM / zero-width no-break space, the
+        // replacement character, line and paragraph separators, NEL, NBSP, a combining mark, CR/LF/TAB
+        "\u{feff}", "\u{fffd}", "\u{2028}", "\u{85}", "\u{a0}", "\u{301}", "\r", "\n", "\t",
+    ];
     let n = match rng.below(8) {
         0 => 0,
         1 => 1,
@@ -34,6 +39,15 @@ pub fn gen_text(rng: &mut Rng, max: usize) -> String {
             break;
         }
         s.push_str(&p);
+    }
+    if max >= 8 && rng.chance(1, 12) {
+        // a special character exactly at the start or at the end of the text
+        let sp = *rng.pick(&["\u{feff}", "\u{fffd}", "\u{a0}", " ", "\t", "\u{85}", "\u{2028}"]);
+        if rng.bool() {
+            s.insert_str(0, sp);
+        } else {
+            s.push_str(sp);
+        }
     }
     s
 }
